@@ -43,41 +43,63 @@ func runC19(r *Run) {
 	// ---------------- metadata
 	if f := r.fn(P, pkgMetadata, "Metadata.CreateDocumentMetadata"); f != nil {
 		ff := r.E.Facts(f, core.Ctx{})
-		// identify the two metadata maps: method map is the one stored under "method"
-		var methodMap, docMap ssa.Value
-		for _, b := range f.Blocks {
-			for _, ins := range b.Instrs {
-				if mu, ok := ins.(*ssa.MapUpdate); ok && strings.Trim(ff.TB.Of(mu.Key).String(), `"`) == "method" {
-					docMap = mu.Map
-					methodMap = stripIface(mu.Value)
+		// the document metadata map is the one returned on success; the method
+		// map is the value stored in it under "method". Both are followed into
+		// helpers of the module (mapBuild), so where the construction is written
+		// does not matter.
+		var docMap ssa.Value
+		for _, ri := range ff.Returns() {
+			if ri.Class == core.RetSuccess {
+				docMap = stripIface(core.RetOp(ri.Ret, 0))
+			}
+		}
+		var docStores, methodStores []mapStore
+		okMaps := docMap != nil
+		if okMaps {
+			docStores, okMaps = r.mapBuild(f, docMap, 2)
+		}
+		if okMaps {
+			okMaps = false
+			for _, b := range f.Blocks {
+				for _, ins := range b.Instrs {
+					if mu, ok := ins.(*ssa.MapUpdate); ok && stripIface(mu.Map) == docMap && trimQ(ff.TB.Of(mu.Key).String()) == "method" {
+						methodStores, okMaps = r.mapBuild(f, mu.Value, 2)
+					}
 				}
 			}
 		}
-		if methodMap == nil || docMap == nil {
-			r.R.Unk(P+".meta.prov", "E5 provenance", core.FuncName(f), r.where(f), "-", "metadata maps not identified")
+		if !okMaps {
+			r.R.Unk(P+".meta.prov", "E5 provenance", core.FuncName(f), r.where(f), "-", "metadata maps not identified (the returned map and the map stored under \"method\" must each come from one make)")
 		} else {
+			const timeFmt = "Time.Format(Time.UTC(time.Unix($1.%s, 0)), ?layout)"
 			type cell struct {
-				m     ssa.Value
-				key   string
-				want  string
-				guard string // fact pattern that must hold at the store ("" = none required)
+				stores []mapStore
+				key    string
+				want   string
+				guard  string // fact pattern that must hold at the store ("" = none required)
 			}
 			cells := []cell{
-				{methodMap, "published", `$2["published"]`, ""},
-				{methodMap, "recoveryCommitment", "$1.RecoveryCommitment", `cmp($1.RecoveryCommitment != "")`},
-				{methodMap, "updateCommitment", "$1.UpdateCommitment", `cmp($1.UpdateCommitment != "")`},
-				{methodMap, "anchorOrigin", "$1.AnchorOrigin", "cmp($1.AnchorOrigin != nil)"},
-				{methodMap, "unpublishedOperations", "getUnpublishedOperations($1.UnpublishedOperations)", ""},
-				{methodMap, "publishedOperations", "getPublishedOperations($1.PublishedOperations)", ""},
-				{docMap, "deactivated", "$1.Deactivated", "true($1.Deactivated)"},
-				{docMap, "canonicalId", `$2["canonicalId"]`, ""},
-				{docMap, "equivalentId", `$2["equivalentId"]`, ""},
-				{docMap, "created", "Time.Format(Time.UTC(time.Unix($1.CreatedTime, 0)), _)", ""},
-				{docMap, "versionId", "$1.VersionID", `cmp($1.VersionID != "")`},
-				{docMap, "updated", "Time.Format(Time.UTC(time.Unix($1.UpdatedTime, 0)), _)", ""},
+				{methodStores, "published", `$2["published"]`, ""},
+				{methodStores, "recoveryCommitment", "$1.RecoveryCommitment", `cmp($1.RecoveryCommitment != "")`},
+				{methodStores, "updateCommitment", "$1.UpdateCommitment", `cmp($1.UpdateCommitment != "")`},
+				{methodStores, "anchorOrigin", "$1.AnchorOrigin", "cmp($1.AnchorOrigin != nil)"},
+				{methodStores, "unpublishedOperations", "getUnpublishedOperations($1.UnpublishedOperations)", ""},
+				{methodStores, "publishedOperations", "getPublishedOperations($1.PublishedOperations)", ""},
+				{docStores, "deactivated", "$1.Deactivated", "true($1.Deactivated)"},
+				{docStores, "canonicalId", `$2["canonicalId"]`, ""},
+				{docStores, "equivalentId", `$2["equivalentId"]`, ""},
+				{docStores, "created", fmt.Sprintf(timeFmt, "CreatedTime"), ""},
+				{docStores, "versionId", "$1.VersionID", `cmp($1.VersionID != "")`},
+				{docStores, "updated", fmt.Sprintf(timeFmt, "UpdatedTime"), ""},
 			}
+			okFmt, nFmt := true, 0
 			for _, c := range cells {
-				stores := r.mapStores(f, func(m ssa.Value) bool { return m == c.m })[c.key]
+				var stores []mapStore
+				for _, s := range c.stores {
+					if s.Key == c.key {
+						stores = append(stores, s)
+					}
+				}
 				id := P + ".meta.prov." + c.key
 				rule := "E5 provenance: metadata member \"" + c.key + "\" = " + c.want
 				why := "a metadata member fed from another field (e.g. the two commitments swapped) or dropped under a stricter condition misreports the resolved state"
@@ -85,12 +107,19 @@ func runC19(r *Run) {
 					r.R.Bad(id, rule, core.FuncName(f), r.where(f), why, fmt.Sprintf("%d stores under this key", len(stores)))
 					continue
 				}
-				mu := stores[0]
-				t := ff.TB.Of(stripIface(mu.Value))
-				ok := core.MatchTerm(c.want, t, core.Bind{})
+				st := stores[0]
+				t := st.Val
+				bind := core.Bind{}
+				ok := st.Match(c.want, bind)
 				det := t.String()
+				if lay, has := bind["layout"]; ok && has {
+					nFmt++
+					if lay.String() != `"2006-01-02T15:04:05Z07:00"` {
+						okFmt = false
+					}
+				}
 				if ok && c.guard != "" {
-					at := ff.At(mu)
+					at := st.Facts
 					if !core.HasFact(at, c.guard) {
 						ok = false
 						det += " — not guarded by " + c.guard
@@ -100,7 +129,7 @@ func runC19(r *Run) {
 					extra := []string{}
 					for _, fc := range at {
 						k := fc.Key()
-						if strings.Contains(k, "$rm."+src) && !core.HasFact(core.FactSet{k: fc}, c.guard) {
+						if strings.Contains(k, "$"+f.Params[1].Name()+"."+src) && !core.HasFact(core.FactSet{k: fc}, c.guard) {
 							extra = append(extra, k)
 						}
 					}
@@ -109,20 +138,9 @@ func runC19(r *Run) {
 						det += " — additional conditions on the value: " + strings.Join(extra, ", ")
 					}
 				}
-				r.R.Check(ok, id, rule, core.FuncName(f), r.P.Pos(mu.Pos()), why, det, "stored value "+det)
+				r.R.Check(ok, id, rule, core.FuncName(f), st.Pos, why, det, "stored value "+det)
 			}
-			// RFC3339 constant
-			okFmt := false
-			for _, b := range f.Blocks {
-				for _, ins := range b.Instrs {
-					if c, ok := ins.(*ssa.Call); ok {
-						if sc := c.Common().StaticCallee(); sc != nil && sc.String() == "(time.Time).Format" {
-							okFmt = ff.TB.Of(c.Common().Args[1]).String() == `"2006-01-02T15:04:05Z07:00"`
-						}
-					}
-				}
-			}
-			r.R.Check(okFmt, P+".meta.prov.rfc3339", "constant: times are formatted with time.RFC3339", core.FuncName(f), r.where(f), "-", "RFC3339", "another layout")
+			r.R.Check(okFmt && nFmt == 2, P+".meta.prov.rfc3339", "constant: created/updated are formatted with the layout time.RFC3339", core.FuncName(f), r.where(f), "-", "RFC3339", "another layout")
 		}
 	}
 	// ---------------- operation lists
@@ -246,24 +264,40 @@ func runC19(r *Run) {
 	// ---------------- processKeys
 	kf := r.E.Facts(pk, core.Ctx{})
 	// verification method members
-	isVM := func(m ssa.Value) bool { return strings.HasPrefix(kf.TB.Of(m).String(), "new:document.PublicKey") }
-	vm := r.mapStores(pk, isVM)
+	// the verification-method map is followed into helpers (mapBuild), so the
+	// key-material block may live in a function of its own
+	vm := map[string][]mapStore{}
+	nVM := 0
+	for _, b := range pk.Blocks {
+		for _, ins := range b.Instrs {
+			if mk, ok := ins.(*ssa.MakeMap); ok && strings.HasPrefix(kf.TB.Of(mk).String(), "new:document.PublicKey") {
+				nVM++
+				stores, okB := r.mapBuild(pk, mk, 2)
+				if !okB {
+					r.R.Unk(P+".vm.prov", "E5 provenance", core.FuncName(pk), r.P.Pos(mk.Pos()), "-", "the verification-method map cannot be followed")
+				}
+				for _, st := range stores {
+					vm[st.Key] = append(vm[st.Key], st)
+				}
+			}
+		}
+	}
 	want := map[string]string{
 		"id":         "Transformer.getObjectID(_, DIDDocument.ID(_), PublicKey.ID($1.PublicKeys()[_]))",
 		"type":       "PublicKey.Type(_)",
 		"controller": "ID($2.Document)",
 	}
 	for _, k := range []string{"id", "type", "controller"} {
-		ok := len(vm[k]) == 1
+		ok := len(vm[k]) == 1 && nVM == 1
 		det := fmt.Sprintf("%d stores", len(vm[k]))
 		if ok {
-			t := kf.TB.Of(stripIface(vm[k][0].Value))
+			t := vm[k][0].Val
 			det = t.String()
 			switch k {
 			case "id":
-				ok = core.MatchTerm("Transformer.getObjectID(_, ID($2.Document), PublicKey.ID(_))", t, core.Bind{})
+				ok = vm[k][0].Match("Transformer.getObjectID(_, ID($2.Document), PublicKey.ID(_))", core.Bind{})
 			default:
-				ok = core.MatchTerm(want[k], t, core.Bind{})
+				ok = vm[k][0].Match(want[k], core.Bind{})
 			}
 		}
 		r.R.Check(ok, P+".vm.prov."+k, "E5 provenance: verification method \""+k+"\"", core.FuncName(pk), r.where(pk), "id must be <did>#<key id> (or #<key id>), controller the DID, type the key's type", short(det, 160), "stored "+short(det, 200))
@@ -271,30 +305,28 @@ func runC19(r *Run) {
 	// key material per type
 	okMat := true
 	var mdet []string
-	for _, mu := range vm["publicKeyBase58"] {
-		t := kf.TB.Of(stripIface(mu.Value))
-		at := kf.At(mu)
-		isEd := core.HasFact(at, `cmp(PublicKey.Type(_) == "Ed25519VerificationKey2018")`) && core.MatchTerm("base58.Encode(getED2519PublicKey(PublicKey.PublicKeyJwk(_)))", t, core.Bind{})
-		isPass := core.MatchTerm("PublicKey.PublicKeyBase58(_)", t, core.Bind{})
+	for _, st := range vm["publicKeyBase58"] {
+		t := st.Val
+		isEd := core.HasFact(st.Facts, `cmp(PublicKey.Type(_) == "Ed25519VerificationKey2018")`) && st.Match("base58.Encode(getED2519PublicKey(PublicKey.PublicKeyJwk(_)))", core.Bind{})
+		isPass := st.Match("PublicKey.PublicKeyBase58(_)", core.Bind{})
 		if !isEd && !isPass {
 			okMat = false
 			mdet = append(mdet, "publicKeyBase58 = "+t.String())
 		}
 	}
-	for _, mu := range vm["publicKeyMultibase"] {
-		t := kf.TB.Of(stripIface(mu.Value))
-		at := kf.At(mu)
-		isEd := core.HasFact(at, `cmp(PublicKey.Type(_) == "Ed25519VerificationKey2020")`) && core.MatchTerm("go-multibase.Encode(122, getED2519PublicKey(PublicKey.PublicKeyJwk(_)))", t, core.Bind{})
-		isPass := core.MatchTerm("PublicKey.PublicKeyMultibase(_)", t, core.Bind{})
+	for _, st := range vm["publicKeyMultibase"] {
+		t := st.Val
+		isEd := core.HasFact(st.Facts, `cmp(PublicKey.Type(_) == "Ed25519VerificationKey2020")`) && st.Match("go-multibase.Encode(122, getED2519PublicKey(PublicKey.PublicKeyJwk(_)))", core.Bind{})
+		isPass := st.Match("PublicKey.PublicKeyMultibase(_)", core.Bind{})
 		if !isEd && !isPass {
 			okMat = false
 			mdet = append(mdet, "publicKeyMultibase = "+t.String())
 		}
 	}
 	nJwk := 0
-	for _, mu := range vm["publicKeyJwk"] {
-		t := kf.TB.Of(stripIface(mu.Value))
-		if core.MatchTerm("PublicKey.PublicKeyJwk(_)", t, core.Bind{}) {
+	for _, st := range vm["publicKeyJwk"] {
+		t := st.Val
+		if st.Match("PublicKey.PublicKeyJwk(_)", core.Bind{}) {
 			nJwk++
 		} else if t.String() != "nil" {
 			okMat = false
